@@ -92,7 +92,18 @@ async def coordinator(ops, out: dict, chooser=None, nsteps: int = 0):
         seen_idle: dict[int, int] = {}
         done_before: dict[int, int] = {}
 
+        done_seen: set[int] = set()
+
         async def completions():
+            # the end of a task (its done-callback has run by now: the loop ran >= 8 cycles) - recorded BEFORE the
+            # wake-ups it caused, as the virtual schedule does; without it a failing child's error is never expected
+            # from its group (the monitor "raised although neither body nor children failed" fired on the simplest
+            # failing-child program, and member errors were never checked on real loops)
+            for t, p in sorted(w.puppets.items()):
+                tk = p.task or getattr(p, "pre_task", None)
+                if t not in done_seen and p.spawned and tk is not None and tk.done():
+                    done_seen.add(t)
+                    record(S.RUNTASKDONE, t, 0, 0, ("none", None))
             for t in sorted(pending):
                 p = w.puppets[t]
                 st = real_status(w, p, done_before.get(t, 0))
